@@ -190,3 +190,10 @@ PROPS = {
 }
 
 NOT_CLAIMED = {}
+
+
+import sys as _sys
+import props_c18
+import props_c19
+props_c18.register(_sys.modules[__name__])
+props_c19.register(_sys.modules[__name__])
